@@ -87,7 +87,7 @@ def run(pid):
     rep.cov["bulk_failures_attributed_to_known_findings"] = classified
     # 3. free-running: both collectors in a loop, started flusher, 2 extra flush callers; collector segments gated
     rounds = 24 if thorough else 6
-    base = dict(writers=4, readers=4, keys=32, writes=700, reads=900, flushers=2, idxgc=True, prigc=True, gate=True, pl=4096, il=2048, owngc=False)
+    base = dict(buckets=32, writers=4, readers=4, keys=96, writes=1200, reads=1500, flushers=2, idxgc=True, prigc=True, gate=True, pl=4096, il=2048, owngc=False)
     st = [dict(base, seed=vlib.seed() * 100 + i, lowUse=[101, 50, 0][i % 3]) for i in range(rounds)]
     d = vlib.subdir("c06.stress")
     sf = os.path.join(d, "scen.ndjson")
@@ -122,7 +122,7 @@ def run(pid):
     rep.cov["distinct_nontrivial"] = total
     rep.cov["rule"] = ("one schedule per TRANSITION of StoreConcGC.tla (a Get/Put/Remove x one commit x one index-GC cycle x one primary-GC cycle with relocation), replayed by thread choice under sequential setups that "
                        "leave superseded index and primary records, pending freelist entries and several files (limits of 30 B: every record starts a file); lock probes (each collector / flusher yield point x every other thread run to completion); "
-                       "free-running rounds with both collectors, the started flusher and 2 extra Flush callers (collector segments exclude foreground calls so that the two known windows cannot open). "
+                       "free-running rounds with both collectors in a loop, the started flusher and 2 extra Flush callers, 96 keys over 32 adjacent buckets with a skewed write distribution (a collector cycle excludes foreground calls so that the two known windows cannot open; cycles overlap with flushes and with each other). "
                        "Behaviours that fire KF-C06-idx-read-after-reap / KF-C06-stale-primary-loc are guarded out of the model schedules and run as pinned witnesses")
     rep.assumptions = ["TLC + Json module", "thread-choice replay: when the code's yield sequence differs from the model's step sequence the schedule is followed by thread name only; verdicts come from the recorded history alone",
                        "single-writer keys in the free-running histories (atomic-register conditions = linearizability)"]
